@@ -491,6 +491,9 @@ func initTopicP2P(t *Topic, sreg *ClientComMessage) error {
 	// Clear original topic name.
 	t.xoriginal = ""
 
+	// Initialize channel for receiving session online updates.
+	t.supd = make(chan *sessionUpdate, 32)
+
 	return nil
 }
 
@@ -615,6 +618,9 @@ func initTopicNewGrp(t *Topic, sreg *ClientComMessage, isChan bool) error {
 	t.xoriginal = t.name // keeping 'new' or 'nch' as original has no value to the client
 	pktsub.Created = true
 	pktsub.Newsub = true
+
+	// Initialize channel for receiving session online updates.
+	t.supd = make(chan *sessionUpdate, 32)
 
 	return nil
 }
